@@ -26,11 +26,11 @@ def repo_root() -> str:
 
 
 class ModuleInfo:
-    def __init__(self, name, relpath, tree, source, kind):
+    def __init__(self, name, relpath, tree, source, kind, signatures=None):
         from .normalise import normalise
 
         if kind in ("py", "pyx"):
-            tree = normalise(tree, typed_locals=(kind == "pyx"))
+            tree = normalise(tree, typed_locals=(kind == "pyx"), signatures=signatures if kind == "py" else None)
         self.name = name
         self.relpath = relpath  # relative to repo root
         self.tree = tree
@@ -93,10 +93,32 @@ class Repo:
         with open(os.path.join(self.pkgdir, fn), encoding="utf-8") as f:
             return f.read()
 
+    def _signatures(self, names):
+        """name -> positional parameter names, for module-level functions and classes (via __init__) that are defined
+        exactly once in the package's .py files; used by normal form N13 to resolve by-keyword vs by-position arguments"""
+        seen = {}
+        for fn in names:
+            if not fn.endswith(".py"):
+                continue
+            try:
+                tree = ast.parse(self._read(fn))
+            except (SyntaxError, OSError):
+                continue
+            for n in tree.body:
+                if isinstance(n, ast.FunctionDef):
+                    seen.setdefault(n.name, []).append(tuple(a.arg for a in n.args.posonlyargs + n.args.args))
+                elif isinstance(n, ast.ClassDef):
+                    inits = [m for m in n.body if isinstance(m, ast.FunctionDef) and m.name == "__init__"]
+                    seen.setdefault(n.name, []).append(tuple(a.arg for a in inits[0].args.posonlyargs + inits[0].args.args)[1:] if len(inits) == 1 else None)
+        return {k: v[0] for k, v in seen.items() if len(v) == 1 and v[0] is not None}
+
     def _load(self):
         if not os.path.isdir(self.pkgdir):
             raise Unrecognised(f"package directory {self.pkgdir} not found")
         names = sorted(set(os.listdir(self.pkgdir)) | set(self.overrides))
+        self.signatures = self._signatures(names)
+        if self._base is not None and getattr(self._base, "signatures", None) != self.signatures:
+            self._base = None  # a changed signature changes how calls in OTHER files are normalised: nothing can be shared
         for fn in names:
             rel = f"{PKG_REL}/{fn}"
             if self._base is not None and fn not in self.overrides:
@@ -110,7 +132,7 @@ class Repo:
             if fn.endswith(".py"):
                 src = self._read(fn)
                 tree = ast.parse(src, filename=rel)
-                self.modules[fn[:-3]] = ModuleInfo(fn[:-3], rel, tree, src, "py")
+                self.modules[fn[:-3]] = ModuleInfo(fn[:-3], rel, tree, src, "py", self.signatures)
             elif fn.endswith(".pyx"):
                 src = self._read(fn)
                 tree = self._parse_pyx_cached(fn, src)
@@ -378,6 +400,20 @@ def nsrc(text: str) -> str:
     if len(tree.body) == 1 and isinstance(tree.body[0], ast.Expr):
         return ast.unparse(tree.body[0].value)
     return ast.unparse(tree)
+
+
+def call_arguments(repo, call):
+    """parameter name -> argument expression of a call to a package function/class named by a plain name, whether the
+    argument was written positionally or by keyword (resolved through repo.signatures); unresolved positionals are kept
+    under their index"""
+    out = {}
+    ps = repo.signatures.get(call.func.id) if isinstance(call.func, ast.Name) else None
+    for i, a in enumerate(call.args):
+        out[ps[i] if ps and i < len(ps) and not isinstance(a, ast.Starred) else i] = a
+    for k in call.keywords:
+        if k.arg is not None:
+            out[k.arg] = k.value
+    return out
 
 
 def expand(fn, expr, depth=6):
